@@ -483,12 +483,10 @@ func run(tier string) int {
 		}()
 	}
 	wg.Wait()
-	if machN > 0 {
-		fmt.Fprintf(os.Stderr, "machinery: %d scenarios could not be run; first: %v\n", machN, firstMach.Load())
-		return 2
-	}
+	// scenarios that could not be run are a machinery failure (exit 2) - but only when the run found no
+	// violation at all: the oracles are evaluated first (see the end of run)
 	// seqResumed == 0 is legitimate (a server that issues no session tickets); the count is reported
-	exhaustive := cstats.Exhaustive && stopped == 0 && int(done) == len(scs) && int(seqDone) == len(seqs)
+	exhaustive := machN == 0 && cstats.Exhaustive && stopped == 0 && int(done) == len(scs) && int(seqDone) == len(seqs)
 
 	// samples
 	var samples []interface{}
@@ -649,5 +647,14 @@ func run(tier string) int {
 	fmt.Printf("C09 %s: sequences=%d (steps %d, evaluations %d, resumed TLS connections %d, time-crossing steps %d of which unconstrained %d); ", tier, len(seqs), seqSteps, seqEvals, seqResumed, timeSteps, timeUnjudged)
 	fmt.Printf("scenarios=%[2]d evaluations=%[3]d distinct_nontrivial=%d must-accept=%d must-reject=%d unconstrained=%d observed accept=%d reject=%d exhaustive=%v signatures=%d wall=%.1fs\n",
 		tier, len(scs), evals, len(distinct), acceptExp, rejectExp, dontCare, acceptObs, rejectObs, exhaustive, len(sigs), time.Since(start).Seconds())
+	if machN > 0 {
+		msg := fmt.Sprintf("%d scenarios / sequences could not be run; first: %v", machN, firstMach.Load())
+		if exit == 1 {
+			fmt.Fprintln(os.Stderr, "note:", msg, "- the violations above are the verdict")
+			return 1
+		}
+		fmt.Fprintln(os.Stderr, "machinery:", msg)
+		return 2
+	}
 	return exit
 }
